@@ -96,6 +96,44 @@ def h_resolve(e0: bool, e1: bool, e2: bool, e_rel: bool, nlp: int) -> bool:
     return verdict(not raised and got == [want])
 
 
+def h_param_substitution(p0: int, p1: int, p2: int, va: int, vb: int) -> bool:
+    """
+    pre: 0 <= p0 <= 3 and 0 <= p1 <= 3 and 0 <= p2 <= 3 and 0 <= va <= 4 and 0 <= vb <= 4
+    post: _
+    """
+    # parameters are substituted simultaneously: a constant named like a macro variable becomes that variable's
+    # argument - also when the argument is itself a constant named like ANOTHER variable of this macro (an outer
+    # macro passing its own variables on in a different order) - everything else is untouched, the blueprint is not
+    from explorerscript.macro import ExplorerScriptMacro
+    from explorerscript.source_map import SourceMap
+    from explorerscript.ssb_converting.ssb_data_types import SsbOpParamConstant
+
+    names = ["$a", "$b", "$c", "KONST"]
+    values: list[Any] = [1, SsbOpParamConstant("$b"), SsbOpParamConstant("$a"), SsbOpParamConstant("$c"), SsbOpParamConstant("OTHER")]
+
+    def pick(i: int, pool: list[Any]) -> Any:
+        r = pool[0]
+        for k in range(len(pool)):
+            if i == k:
+                r = pool[k]
+        return r
+
+    blue = [SsbOpParamConstant(pick(p0, names)), 5, SsbOpParamConstant(pick(p1, names)), SsbOpParamConstant(pick(p2, names))]
+    before = [x if isinstance(x, int) else x.name for x in blue]
+    args = {"$a": pick(va, values), "$b": pick(vb, values)}
+    m = ExplorerScriptMacro("m", ["$a", "$b"], [], SourceMap.create_empty())
+    out = m._process_parameters(list(blue), dict(args))
+    ok = len(out) == 4 and out[1] == 5
+    for i in (0, 2, 3):
+        nm = blue[i].name
+        want = args[nm] if nm in args else blue[i]
+        ok = ok and (out[i] is want or out[i] == want) and type(out[i]) is type(want)
+        if isinstance(want, SsbOpParamConstant):
+            ok = ok and out[i].name == want.name
+    ok = ok and [x if isinstance(x, int) else x.name for x in blue] == before
+    return verdict(ok)
+
+
 OBLIGATIONS = [
     {"id": "C05.S4", "module": __name__, "func": "h_resolve",
      "what": "import resolution: ./ and ../ imports resolve against the importing file's directory, absolute imports as "
@@ -107,4 +145,12 @@ OBLIGATIONS = [
      "encodes": ["explorerscript.ssb_converting.ssb_compiler.ExplorerScriptSsbCompiler._resolve_imported_file"],
      "stubs": ["os.path.exists / os.path.realpath answered from a symbolic table of existing paths (no symlinks: realpath "
                "= normpath); replayed on a real temporary directory by the enumerated part"]},
+    {"id": "C05.S2", "module": __name__, "func": "h_param_substitution",
+     "what": "macro parameter substitution is simultaneous: constants named like a macro variable are replaced by the "
+             "argument, also when arguments are themselves constants named like another variable (swapped / rotated "
+             "names of nested calls); other parameters and the blueprint stay untouched",
+     "timeout": {"quick": 200, "thorough": 600},
+     "bounds": "3 constant parameters chosen from {$a,$b,$c,KONST}, two arguments chosen from {1,$b,$a,$c,OTHER}, all "
+               "choices symbolic",
+     "encodes": ["explorerscript.macro.ExplorerScriptMacro._process_parameters"]},
 ]
